@@ -574,12 +574,12 @@ theorem tupleLoop_congr (env : Env) (renv : REnv) (k : Nat) (rec rec' : RTy → 
       have hl' : ts.length = es'.length := by simpa using hl
       have step : ∀ (w : Ty) (wsT : List (Label × Ty)) (s1 : St),
           ((rec t Flags.clear w et s1).bind fun (x : Val × Flags) s2 =>
-              (tupleLoop rec ts es' wsT (i + 1) x.2 s2).map fun y => ((Label.id i, x.1) :: y.1, y.2.1, y.2.2)) =
+              (tupleLoop rec ts es' wsT (i + 1) x.2 s2).map fun y => ((l, x.1) :: y.1, y.2.1, y.2.2)) =
             ((rec' t Flags.clear w et s1).bind fun (x : Val × Flags) s2 =>
-              (tupleLoop rec' ts es' wsT (i + 1) x.2 s2).map fun y => ((Label.id i, x.1) :: y.1, y.2.1, y.2.2)) ∧
+              (tupleLoop rec' ts es' wsT (i + 1) x.2 s2).map fun y => ((l, x.1) :: y.1, y.2.1, y.2.2)) ∧
           ∀ vs rest fl2 s,
             ((rec t Flags.clear w et s1).bind fun (x : Val × Flags) s2 =>
-              (tupleLoop rec ts es' wsT (i + 1) x.2 s2).map fun y => ((Label.id i, x.1) :: y.1, y.2.1, y.2.2)) = .ok (vs, rest, fl2) s →
+              (tupleLoop rec ts es' wsT (i + 1) x.2 s2).map fun y => ((l, x.1) :: y.1, y.2.1, y.2.2)) = .ok (vs, rest, fl2) s →
             fl2 = Flags.clear := by
         intro w wsT s1
         obtain ⟨e1, e2⟩ := hr t Flags.clear w et s1 hat (FlagsFit.clear w et)
@@ -791,13 +791,13 @@ theorem structLoop_good (mk mk' : String → NR) (env : Env) (renv : REnv) (k : 
 
 
 theorem mapLoop_congr (mk mk' : String → NR) (env : Env) (renv : REnv) (k : Nat) (rec rec' : RTy → Flags → Ty → Ty → St → NR)
-    (hr : RecOK env renv k rec rec') (ign : Ty → St → R Val) (kt vt : RTy) (ek ev wk wv : Ty) (extra : List Ty)
+    (hr : RecOK env renv k rec rec') (ign : Ty → St → R Val) (kt vt : RTy) (l0 l1 : Label) (ek ev wk wv : Ty) (extra : List Ty)
     (keyFast : Bool) (valFast : Option Big)
     (hak : agree env renv k kt ek = true) (hav : agree env renv k vt ev = true)
     (hkf : keyFast = true → ek = .prim .text ∧ wk = .prim .text) (hvf : valFast = bigOf ev wv) :
     ∀ (n : Nat) (st : St),
-      mapLoop mk rec ign kt vt ek ev wk wv extra keyFast valFast n st =
-        mapLoop mk' rec' ign kt vt ek ev wk wv extra keyFast valFast n st := by
+      mapLoop mk rec ign kt vt l0 l1 ek ev wk wv extra keyFast valFast n st =
+        mapLoop mk' rec' ign kt vt l0 l1 ek ev wk wv extra keyFast valFast n st := by
   have hfk : FlagsFit ⟨none, keyFast⟩ wk ek := by
     refine ⟨?_, ?_, ?_, ?_⟩ <;> simp
     exact hkf
@@ -881,7 +881,7 @@ theorem nMapCase_good (mk mk' : String → NR) (env : Env) (renv : REnv) (k : Na
                   obtain ⟨hak, hav⟩ := ha efs l0 ek l1 ev (Sub.traceFull_of_trace env k ee _ hte) hl hids.1 hids.2
                   refine Good.bind _ _ _ fun n s2 _ => ?_
                   refine Good.bind _ _ _ fun _ s3 _ => ?_
-                  rw [mapLoop_congr mk mk' env renv k rec rec' hr ign kt vt ek ev _ _ _ _ _ hak hav
+                  rw [mapLoop_congr mk mk' env renv k rec rec' hr ign kt vt l0 l1 ek ev _ _ _ _ _ hak hav
                     (fun h => by simpa [Bool.and_eq_true, decide_eq_true_eq] using h) rfl n s3]
                   exact Good.map_clear (fun es => Val.vec es) rfl
                 · exact hempty s1
@@ -922,22 +922,22 @@ theorem nEnumCase_good (mk mk' : String → NR) (env : Env) (renv : REnv) (k : N
             | unit =>
               simp only []
               split
-              · exact Good.map_clear (fun _ => Val.variant (.named nm) .null 0) rfl
+              · exact Good.map_clear (fun _ => Val.variant (.named nm) .null idx) rfl
               · exact Good.subErr fl s4
             | newtype =>
               simp only []
               refine Good.bind _ _ _ fun _ s5 _ => ?_
-              exact Good.map_clear (fun (x : Val × Flags) => Val.variant (.named nm) x.1 0)
+              exact Good.map_clear (fun (x : Val × Flags) => Val.variant (.named nm) x.1 idx)
                 (hr t Flags.clear wt et s5 (hag (by simp)) (FlagsFit.clear wt et)).1
             | tuple =>
               simp only []
               refine Good.bind _ _ _ fun _ s5 _ => ?_
-              exact Good.map_clear (fun (x : Val × Flags) => Val.variant (.named nm) x.1 0)
+              exact Good.map_clear (fun (x : Val × Flags) => Val.variant (.named nm) x.1 idx)
                 (hr t Flags.clear wt et s5 (hag (by simp)) (FlagsFit.clear wt et)).1
             | strct =>
               simp only []
               refine Good.bind _ _ _ fun _ s5 _ => ?_
-              exact Good.map_clear (fun (x : Val × Flags) => Val.variant (.named nm) x.1 0)
+              exact Good.map_clear (fun (x : Val × Flags) => Val.variant (.named nm) x.1 idx)
                 (hr t Flags.clear wt et s5 (hag (by simp)) (FlagsFit.clear wt et)).1
         | id h => simp only []; exact Good.err fl _
         | unnamed h => simp only []; exact Good.err fl _
